@@ -330,7 +330,10 @@ func Drive(id, tier string, replayFile string) int {
 	}
 
 	// replays
-	replayDir := filepath.Join(verifDir, "replays", id)
+	// VERIF_OUT redirects evidence and replays (bin/seedrun and bin/try-revert set it, so that a
+	// run on a deliberately broken tree never overwrites the record of the unchanged tree).
+	outDir := envOr("VERIF_OUT", verifDir)
+	replayDir := filepath.Join(outDir, "replays", id)
 	os.RemoveAll(replayDir) // replays of earlier runs are stale
 	var vioLines []string
 	for _, v := range fresh {
@@ -385,9 +388,17 @@ func Drive(id, tier string, replayFile string) int {
 	if ev["assumptions"] == nil {
 		ev["assumptions"] = []string{}
 	}
-	os.MkdirAll(filepath.Join(verifDir, "evidence"), 0o755)
+	os.MkdirAll(filepath.Join(outDir, "evidence"), 0o755)
 	data, _ := json.MarshalIndent(ev, "", " ")
-	os.WriteFile(filepath.Join(verifDir, "evidence", id+".json"), append(data, '\n'), 0o644)
+	evPath := filepath.Join(outDir, "evidence", id+".json")
+	err = os.WriteFile(evPath+".tmp", append(data, '\n'), 0o644)
+	if err == nil {
+		err = os.Rename(evPath+".tmp", evPath)
+	}
+	if err != nil && len(fresh) == 0 {
+		fmt.Printf("INCONCLUSIVE property=%s reason=evidence-not-written:%v\n", id, err)
+		return 2
+	}
 
 	if len(fresh) > 0 {
 		for _, l := range vioLines {
